@@ -1,9 +1,69 @@
 import Olla.Driver.Util
+import Olla.Model.Provider
+import Olla.Spec.C11
 
 namespace Olla.Driver.C11
-open Lean Olla.Driver
+open Lean Olla.Driver Olla.Model.Provider Olla.Spec.C11
 
-/-- placeholder until the C11 driver is written -/
-def main : IO Unit := pure ()
+def parseEps (j : Json) : List Ep :=
+  (jarr (jget j "eps")).map (fun e =>
+    { name := jstr (jget e "name"), ty := jstr (jget e "type"), healthy := jbool (jget e "healthy"),
+      models := jstrList (jget e "models") })
+
+def subset (a b : List String) : Bool := a.all (b.contains ·)
+
+def handle (j : Json) : IO Unit := do
+  let case := jnat (jget j "case")
+  let kind := jstr (jget j "kind")
+  let impl := jget j "impl"
+  if kind == "start-error" then
+    emit case false true "start-error" "" (jstr (jget impl "start_err")); return
+  let p := jstr (jget j "prefix")
+  let eps := parseEps j
+  let status := jnat (jget impl "status")
+  let contacted := (jstrList (jget impl "contacted")).eraseDups
+  let os := owners (normaliseType p)
+  let tys := String.intercalate "," (eps.map (fun e => e.ty ++ (if e.healthy then "" else "(down)")))
+  if kind == "proxy" then
+    let model := jstr (jget j "model")
+    -- model: one outcome per possible answer of the prefix lookup; the later stages only narrow
+    let outs := os.map (fun o => Olla.Model.Provider.handle active p o eps id)
+    let explains (out : Outcome) : Bool :=
+      let names := (contactable out).map (·.name)
+      subset contacted names
+      && (!(isError out) || (status ≥ 400 && contacted.isEmpty))
+      && (match out with | .unknownProvider => status == 400 | _ => true)
+      && (!(names.length == 1 && model == "") || (status == 200 && contacted == names))
+    let agree := outs.any explains
+    let c1 := contained p eps contacted
+    let c2 := errorWhenNone p eps (status ≥ 400) contacted
+    let spec := c1 && c2
+    let healthy := eps.filter (·.healthy)
+    let o0 := os.headD p
+    let branch :=
+      (if healthy.isEmpty then "none-healthy"
+       else if (healthy.filter (fun e => codeCompat o0 e.ty)).isEmpty then "no-compatible-healthy"
+       else if (healthy.all (fun e => codeCompat o0 e.ty)) then "all-compatible" else "mixed")
+      ++ (if model == "" then "" else "+model")
+    let sig := if spec then "" else if !c1 then "provider-fallback-to-incompatible-endpoint" else "no-provider-endpoint-but-no-error"
+    emit case agree spec branch sig
+      (if spec && agree then "" else
+        s!"POST /olla/{p}{jstr (jget j "path")} model '{model}' with endpoints [{tys}]: status {status}, backends contacted {contacted}; model allows {outs.map (fun o => (contactable o).map (·.name))}")
+      (Json.mkObj [("candidates", toJson (outs.map (fun o => (contactable o).map (·.name))))])
+  else if kind == "listing" then
+    let got := (jstrList (jget impl "ids")).eraseDups
+    let preds := os.map (fun o => listing o eps)
+    let path := jstr (jget j "path")
+    let agree := preds.any (fun pr => subset got pr && (!(status == 200 && path == "/v1/models") || subset pr got))
+    let spec := listingContained p eps got
+    let branch := if (preds.headD []).isEmpty then "listing-empty" else
+      if (preds.headD []).length == (allModels eps).length then "listing-all" else "listing-filtered"
+    emit case agree spec branch (if spec then "" else "listing-contains-foreign-model")
+      (if spec && agree then "" else s!"GET /olla/{p}{path} with endpoints [{tys}]: status {status}, ids {got}; model {preds}")
+      (Json.mkObj [("ids", toJson preds)])
+  else
+    emit case false true "unknown-kind" "" kind
+
+def main : IO Unit := do forLines (← IO.getStdin) handle
 
 end Olla.Driver.C11
